@@ -129,7 +129,16 @@ func Dot(spec *Spec, w io.WriteCloser, fromNode, toNode string) error {
 		}
 		log.Printf("  processing %s branches: %d", name, len(n.Branches.Branches))
 		for i, b := range n.Branches.Branches {
-			if err := node(b.Target, nodes[b.Target]); err != nil {
+			target := nodes[b.Target]
+			if target == nil {
+				// The target is not a node of this spec (a
+				// missing target or a branch target
+				// variable).  The edge still needs an
+				// endpoint; without one, this node's
+				// remaining branches used to be dropped.
+				target = &Node{}
+			}
+			if err := node(b.Target, target); err != nil {
 				log.Printf("process branch error with %s: %v", b.Target, err)
 				return err
 			}
